@@ -178,7 +178,45 @@ func c18WatchChild(scPath string) int {
 		rep.violation("watcher/work-while-paused", fmt.Sprintf("%d seeds were taken by workers that had acknowledged the low-disk pause", recvWhilePaused), nil)
 	}
 	mu.Unlock()
-	watchers.StopDiskWatcher()
+	var opt struct {
+		StopWhileLow bool `json:"stop_while_low"`
+	}
+	readJSON(scPath, &opt)
+	if !opt.StopWhileLow {
+		watchers.StopDiskWatcher()
+		return 0
+	}
+	// C14 / C03: shutdown requested while the disk watchdog holds the pipeline paused and the disk is
+	// still low. The stop sequence begins with StopDiskWatcher(): it must return whatever the disk does.
+	config.Get().MinSpaceRequired = high
+	if !waitFor(func() bool { mu.Lock(); defer mu.Unlock(); return pause.IsPaused() && acks >= 4*4 }) {
+		rep.inconclusive("watcher-did-not-pause-for-the-stop-phase")
+		watchers.StopDiskWatcher()
+		return 0
+	}
+	rep.Evaluations++
+	stopped := make(chan struct{})
+	go func() { watchers.StopDiskWatcher(); close(stopped) }()
+	select {
+	case <-stopped:
+		rep.distinct("stop-while-paused-by-low-disk/returned")
+	case <-time.After(20 * time.Second): // 500 watcher ticks
+		// structural confirmation: does it return once the disk has space again?
+		config.Get().MinSpaceRequired = low
+		select {
+		case <-stopped:
+			rep.violation("watcher/stop-waits-for-disk-space", "StopDiskWatcher() did not return for 500 watcher ticks while free space stayed below the setting, and returned as soon as space was available again: shutdown depends on the disk", map[string]any{"parked": stuckFrames(goroutineDump())})
+		case <-time.After(20 * time.Second):
+			rep.violation("watcher/stop-never-returns", "StopDiskWatcher() did not return, neither while the disk was low nor after space became available", map[string]any{"parked": stuckFrames(goroutineDump())})
+		}
+	}
+	done := make(chan struct{})
+	go func() { h.stop(); close(done) }()
+	select {
+	case <-done:
+	case <-time.After(20 * time.Second):
+		rep.violation("watcher/stages-do-not-stop-while-paused-by-low-disk", "the stages did not stop within 20 s after the watcher was stopped while it held the pipeline paused", map[string]any{"parked": stuckFrames(goroutineDump())})
+	}
 	return 0
 }
 
